@@ -5,6 +5,24 @@ HERE = os.path.dirname(os.path.dirname(os.path.abspath(__file__)))
 sys.path.insert(0, HERE)
 from cocoverif import props  # noqa
 
+
+def technique_of(rules):
+    fams = {r.split("-")[0] for r in rules}
+    parts = ["static analysis over the parsed source (ast), no execution of repository code"]
+    if fams & {"TAB", "ENC", "WID", "DSK", "REL", "DIR", "EXP"}:
+        parts.append("constant folding of tables and pure helpers over finite domains against reference tables")
+    if fams & {"ENC", "REL", "DSK", "CAS", "LAY"}:
+        parts.append("path-enumerating abstract interpretation (affine / bit-mask / constructor-term domains)")
+    if fams & {"CAS"}:
+        parts.append("byte-sequence extraction with checksum pairing")
+    if fams & {"VF", "CLI", "ESC", "TERM", "LAY", "INC"}:
+        parts.append("CFG dominance, typestate of event traces evaluated per configuration, resolved call graph with exception-escape fixpoint")
+    if fams & {"DET"}:
+        parts.append("effect analysis of module/class-level state with embedded canaries")
+    if fams & {"TXT"}:
+        parts.append("regular expressions of the source matched against a fixed alphabet")
+    return "; ".join(parts)
+
 all_ids = [json.loads(l)["id"] for l in open(os.path.join(HERE, "properties.jsonl"))]
 checks = []
 for pid in all_ids:
@@ -26,7 +44,7 @@ for pid in all_ids:
             "design_ref": "DESIGN.md section 4, %s" % pid,
         },
         "level_note": "Trusted base: " + "; ".join(sp["assumptions"]),
-        "technique": sp.get("technique", "static analysis: AST constant folding, path-enumerating abstract interpretation, CFG dominance and call-graph rules against reference tables"),
+        "technique": sp.get("technique", technique_of(sp["rules"])),
     })
 na = [{"property_id": pid, "reason": props.NOT_APPLICABLE.get(pid, "check not built yet in this session; see DESIGN.md")}
       for pid in all_ids if pid not in props.PROPS]
